@@ -812,6 +812,12 @@ def MZM(
     return output
 
 
+def _inexact(x):
+    """Samples as a float64 / complex128 array (bool, integer and lower-precision records are promoted)."""
+    x = np.asarray(x)
+    return x.astype(np.result_type(x.dtype, np.float64), copy=False)
+
+
 def BPF(input: optical_signal, BW: float, n: int = 4):
     r"""
     **Optical Band-Pass Filter**
@@ -844,10 +850,12 @@ def BPF(input: optical_signal, BW: float, n: int = 4):
 
     output = input[:]  # copy the input signal
 
-    output.signal = sg.sosfiltfilt(sos_band, input.signal, axis=-1)
+    # filter in (at least) double precision: scipy builds the edge extension 2*x[0] - x[k] in the dtype of the
+    # record, which wraps around for unsigned / narrow integer samples
+    output.signal = sg.sosfiltfilt(sos_band, _inexact(input.signal), axis=-1)
 
     if output.noise is not None:
-        output.noise = sg.sosfiltfilt(sos_band, input.noise, axis=-1)
+        output.noise = sg.sosfiltfilt(sos_band, _inexact(input.noise), axis=-1)
 
     output.execution_time = toc()
     return output
@@ -1296,10 +1304,12 @@ def LPF(
 
     output = input[:]
 
-    output.signal = sg.sosfiltfilt(sos_band, signal).real
+    # filter in (at least) double precision: scipy builds the edge extension 2*x[0] - x[k] in the dtype of the
+    # record, which wraps around for unsigned / narrow integer samples
+    output.signal = sg.sosfiltfilt(sos_band, _inexact(signal)).real
 
     if noise is not None:
-        output.noise = sg.sosfiltfilt(sos_band, noise).real
+        output.noise = sg.sosfiltfilt(sos_band, _inexact(noise)).real
 
     if retH:
         _, H = sg.sosfreqz(sos_band, worN=signal.size, fs=fs, whole=True)
